@@ -115,7 +115,8 @@ def run(ctx):
         if len(T) > 1:
             add('unflatten∘flatten', 'skip 1 %s' % tt, lambda T=T, hdr=hdr: list(etl.unflatten(etl.flatten(T), len(hdr)))[1:], base, nt)
         # pivot: f1,f2 from small text pools, f3 ints
-        P = [['r', 'c', 'v']] + [[rng.choice(['x', 'y', 'z']), rng.choice(['p', 'q']), rng.choice([1, 2, 5])] for _ in range(rng.choice([0, 1, 3, 6]))]
+        cpool = rng.choice([['p', 'q'], ['p', 'q'], ['p', None, 1], [2, 1, None], ['p', b'p', (1, 'a')]])     # column values: one type, or mixed with None
+        P = [['r', 'c', 'v']] + [[rng.choice(['x', 'y', 'z']), rng.choice(cpool), rng.choice([1, 2, 5])] for _ in range(rng.choice([0, 1, 3, 6]))]
         an = rng.choice(['sum', 'len', 'list', 'max'])
         fn = {'sum': sum, 'len': len, 'list': list, 'max': max}[an]
         add('pivot', 'rs pivot 0 1 2 %s %s %s %s' % (an, proto.enc(m), proto.enc_opt(bs), proto.enc_table(P)), lambda P=P, fn=fn, m=m, bs=bs: etl.pivot(P, 'r', 'c', 'v', fn, missing=m, buffersize=bs), dict(table=repr(P), agg=an), len(P) > 2)
